@@ -284,6 +284,20 @@ func (s *SwapStateMachine) exponentialBackoffAndJitter() {
 // Recover tries to continue from the current state, by doing the associated Action
 func (s *SwapStateMachine) Recover() (bool, error) {
 	log.Infof("[Swap:%s]: Recovering from state %s", s.SwapId.String(), s.Current)
+	if s.Current == Default {
+		// The process stopped after the swap was first persisted but before
+		// its first transition: nothing has been sent or broadcast yet. There
+		// is no action to resume, so the swap is canceled instead of staying
+		// active (and keeping its channel locked) forever.
+		s.Data.CancelMessage = "swap was interrupted before it started"
+		s.Previous = s.Current
+		s.setState(State_SwapCanceled)
+		s.Data.SetState(State_SwapCanceled)
+		if err := s.swapServices.swapStore.UpdateData(s); err != nil {
+			return false, err
+		}
+		return true, nil
+	}
 	state, ok := s.States[s.Current]
 	if !ok {
 		return false, fmt.Errorf("unknown state: %s for swap %s", s.Current, s.SwapId.String())
